@@ -5,11 +5,12 @@ EXTENDS HTypesGen
 vX == Var("X", <<>>)
 vY == Var("Y", <<Num>>)
 vZ == Var("Z", <<A(vX)>>)
+vI == Var("I", <<IntT>>)
 Out(t) == Wild("out", <<t>>)
 In(t) == Wild("in", <<t>>)
 Patterns == {vX, vY, vZ, A(vX), A(vY), A(vZ), B(vX), B(vY), D(vX, vX), D(vX, vY), D(vY, vX), D(IntT, vX), D(vX, Str),
              A(Out(vX)), A(In(vX)), B(Out(vY)), D(Out(vX), vX), D(vX, In(vX)), A(A(vX)), A(B(vY)), B(A(Out(vX))), A(Star), CcT, A(IntT),
-             D(vX, vZ), A(A(Out(vY))), D(vY, vY), D(vZ, vZ), D(vY, Out(vY)), B(B(vY))}
+             D(vX, vZ), A(A(Out(vY))), D(vY, vY), D(vZ, vZ), D(vY, Out(vY)), B(B(vY)), vI, A(vI), D(vI, vY)}
 \* targets that are, or contain, type variables of the surrounding scope (S : Number, R, Q : Int)
 tS == Var("S", <<Num>>)
 tR == Var("R", <<>>)
